@@ -27,6 +27,8 @@ def shard_random(col, shard, ngrammars, ninputs):
         for st in starts:
             for t in G.gen_inputs(rng, g, ninputs, st):
                 cases.append(R.Case(g, t[:48], st))
+                if ' ' in t and rng.random() < 0.15:      # whitespace is what \\s says it is: NBSP, LS, FS..US, VT, FF, NEL, ideographic space
+                    cases.append(R.Case(g, t[:48].replace(' ', rng.choice(G.UNICODE_WS), rng.choice([1, 3])), st))
         for _, _, e in g['rules']:
             for x in E.walk(e):
                 col.count('node.' + E.kind(x))
